@@ -776,7 +776,7 @@ def run(ctx):
     # the marker lists of real mapping runs: reported = used (in reference order) at every node where a vote was held;
     # a flattened run (with or without a dropped level) uses the union of every list of the table
     from harness import mapcheck
-    mapcheck.run_batch(ctx, ctx.n(14, 200), ('c08-',), 'runs', max_levels=4)
+    mapcheck.run_batch(ctx, ctx.n(16, 200), ('c08-',), 'runs', max_levels=4)
 
 
 def replay(ctx, rec):
